@@ -224,7 +224,10 @@ CHECKS["C20"] = dict(
     assumptions=E1_ASSUME,
     units=[dict(pkg="notify", test="TestVerifC20", shards_quick=16, shards_thorough=16, budget_quick=200, budget_thorough=1500),
            dict(pkg="notify/webhook", test="TestVerifC20Payload", shards_quick=1, shards_thorough=1, budget_quick=60, budget_thorough=120),
-           dict(pkg="notify/webhook", test="TestVerifC20WebhookRetry", shards_quick=1, shards_thorough=1, budget_quick=60, budget_thorough=300)],
+           dict(pkg="notify/webhook", test="TestVerifC20WebhookRetry", shards_quick=1, shards_thorough=1, budget_quick=60, budget_thorough=300),
+           dict(pkg="notify/slack", test="TestVerifC20SlackRetry", shards_quick=1, shards_thorough=1, budget_quick=60, budget_thorough=300),
+           dict(pkg="notify/pagerduty", test="TestVerifC20PagerdutyRetry", shards_quick=1, shards_thorough=1, budget_quick=60, budget_thorough=300),
+           dict(pkg="notify/incidentio", test="TestVerifC20IncidentioRetry", shards_quick=1, shards_thorough=1, budget_quick=60, budget_thorough=300)],
 )
 
 CHECKS["C11"] = dict(
